@@ -135,9 +135,11 @@ def check_case(case: dict) -> Result:
             res.fail(f"sample-shape :: {values.shape}")
         else:
             table = {}
+            max_tol = 0.0
             for j in range(R):
                 for i, st_ in enumerate(sets):
                     wv, tol = _fresh_gap(n, comp, gap, vals[order[j]], mins | set(st_))
+                    max_tol = max(max_tol, tol)
                     table[(order[j], st_)] = wv
                     if abs(float(values[j, i]) - wv) > tol:
                         res.fail(f"sample-row :: n={n}: row {j} (game {order[j]}) set {sorted(st_)} = {float(values[j, i])!r}, expected {wv!r}")
@@ -149,7 +151,8 @@ def check_case(case: dict) -> Result:
                 start2 = counter["calls"]
                 best, best_actions = get_best_exploitability(env, kb, R, gf, processes=pb)
                 order2 = [(start2 + j) % R for j in range(R)]
-                tol = 1e-9 * scale
+                # tolerance from the arithmetic (gap evaluation error), not a fraction of the scale: near-ties must be told apart
+                tol = 4 * max_tol + 1e-13 * scale
                 prev_mean = None
                 for s in range(0, kb + 1):
                     cands = [st_ for st_ in want if len(st_) == s]
@@ -181,9 +184,22 @@ def cases(draw, n_max: int):
     n = draw(st.integers(3, n_max))
     want_best = n <= 4 and draw(st.integers(0, 2)) == 0
     # the optimum search is where negative gaps (games outside the class, rounding residues of float games) matter most
-    src = draw(st.sampled_from(["arbitrary", "arbitrary", "lib", "sa"] if want_best else ["sa", "sam", "lib", "arbitrary"]))
+    src = draw(st.sampled_from(["arbitrary", "near-tie", "near-tie", "lib", "sa"] if want_best else ["sa", "sam", "lib", "arbitrary"]))
     R = draw(st.integers(1, 3))
-    if src == "arbitrary":
+    if src == "near-tie":
+        # integer game (many exact ties between reveal sets) plus a tiny exactly representable perturbation: reveal sets of one
+        # size whose mean gaps differ by 2^-21 .. 2^-30 - the optimum must still be the true minimum
+        from ..games import build_superadditive
+        eps_ = 2.0 ** -draw(st.sampled_from([21, 24, 30]))
+        games = []
+        for _ in range(R):
+            singles = draw(st.lists(st.integers(-6, 6), min_size=n, max_size=n))
+            sur = draw(st.lists(st.integers(0, 3), min_size=1 << n, max_size=1 << n))
+            bump = draw(st.lists(st.integers(0, 2), min_size=1 << n, max_size=1 << n))
+            v = build_superadditive(n, [float(x) for x in singles], [float(a) + eps_ * b for a, b in zip(sur, bump)])
+            games.append(dict(kind="table", n=n, v=[float(x) for x in v], how="harness-near-tie"))
+        comp = draw(st.sampled_from(["superadditive", "superadditive_cached"]))
+    elif src == "arbitrary":
         # "for any game": enumeration, per-set values and the per-size minimum do not depend on the class (gaps may be negative)
         from ..games import arbitrary_games
         games = [dict(kind="table", n=n, v=draw(arbitrary_games(n, n, classes=("int", "dyadic")))["v"], how="harness-arbitrary") for _ in range(R)]
